@@ -69,6 +69,8 @@ def key_c06(ev, clause):
                 shape = 'molecule_spans_contigs'
     elif 'Reuse' in c:
         shape = 'reused_iterator'
+    elif 'UnderEjection' in c:
+        shape = 'check_eject_every=0'
     else:
         shape = 'hd=%d,radius%s0,cap%s0' % (ev['hd'], '>' if ev['radius'] else '=', '>' if ev['cap'] else '=')
     return '%s|%s|%s' % (c, ev['kind'], shape)
